@@ -15,9 +15,9 @@ CHECKS = {
    "Part 1: BFS from fork preludes (equal TXID with different checksum, former primary ahead by two, fork behind) in both journal modes over transactions, partitions, demotions, retention, restarts and late joiners: every node's image equals the primary's at the position it reports, every log is one chain, connected nodes converge. Part 2: for each entry point (stream from a scripted primary into the real replica loop, POST /tx under a halt lock, restore from a backup service) x journal mode x {valid control, wrong/gapped/lower MinTXID, wrong pre-checksum, flipped page / header / trailer bytes, nine truncation classes, garbage, malformed snapshots}: database bytes, position and log unchanged, node keeps running and restarts cleanly.",
    "Same lab as C01; LTX files are built with the ltx module's encoder. Forged files with a valid CRC but a lying post-apply checksum are out of scope.", "§4 C06"),
  "C07": ("model_checking", "E1-sequences",
-   "exhaustive enumeration of operation sequences on a replica's mount: full rollback and WAL transaction scripts continued past refusals with every extra mutating operation inserted at every position; digest compared after every operation",
-   "On a connected, caught-up replica the 28-step rollback script (with and without a left-over journal) and the 23-step WAL script are run through the real FUSE handlers with each of 35 extra operations (writes of every alignment, truncates, journal/WAL/SHM create-write-truncate-unlink, lock and unlock incl. the WAL capture trigger, database unlink, /import to the replica, a primary commit) inserted at every position; after every single operation the replica's position, logical image and LTX directory contents must be unchanged, page/journal/WAL writes must fail with EACCES, and modes must be 0444/0555 on the replica vs 0666/0777 on the primary; the position moves only when the primary commits.",
-   "Handler methods are called directly (no kernel permission check). The part of C07 about authority lost in the middle of a commit needs the schedule engine and is not claimed by this check yet.", "§4 C07"),
+   "exhaustive enumeration of operation sequences on a replica's mount (full rollback and WAL transaction scripts continued past refusals with every extra mutating operation inserted at every position; digest compared after every operation) and of every position of a primary's transaction at which write authority is lost",
+   "On a connected, caught-up replica the 28-step rollback script (with and without a left-over journal) and the 23-step WAL script are run through the real FUSE handlers with each of 35 extra operations (writes of every alignment, truncates, journal/WAL/SHM create-write-truncate-unlink, lock and unlock incl. the WAL capture trigger, database unlink, /import to the replica, a primary commit) inserted at every position; after every single operation the replica's position, logical image and LTX directory contents must be unchanged, page/journal/WAL writes must fail with EACCES, and modes must be 0444/0555 on the replica vs 0666/0777 on the primary; the position moves only when the primary commits. Part B: on the primary, before every file operation of five transaction shapes (rollback: modify/DELETE, grow+spill/TRUNCATE, modify/PERSIST; WAL: one frame, three frames with growth) the node loses write authority in one of three ways (Store.Demote, lease lapsed on the service while partitioned and taken by the other candidate, hand-off) and the application carries on as SQLite does: a transaction whose commit step (journal finalisation / release of the WAL write lock) begins after the loss is never published - no position moves, no LTX appears on any node - one whose commit step came first is published; afterwards every node holds the reference image of the position it reports and follows the next primary's commit.",
+   "Handler methods are called directly (no kernel permission check). Authority lost in the middle of a transaction is enumerated at the granularity of the application's file operations; Store.Exit is modelled as process death (restart from the directory as it was at that instant).", "§4 C07"),
  "C08": ("exploration", "E2-deviation-scripts",
    "deviation-bounded exhaustive search over lease-service answer scripts and environment events (bound 2 quick / 3 thorough) on real stores on the fake clock, monitors evaluated every 0.5 fake seconds",
    "For each of 30 configurations (candidate x stored cluster ID x service cluster ID x {alone, joining a primary M, primary with replica M}) every script in which the lease service deviates from the truthful answer at most twice (Acquire: held/error; AcquireExisting: error; Renew: expired / error / errors from now on; PrimaryInfo: none / error / stale; ClusterID and SetClusterID: error) or the environment issues Demote, Handoff(unknown) or Handoff(M) at 5-second marks is run for 40 fake seconds (about 1.6x10^5 scripts); monitors: primary only with a granted, un-expired lease renewed within TTL+2 s, primary context cancelled on loss, each lease destroyed exactly once unless handed off (then never), non-candidate never acquires, no primary or replication across differing cluster IDs, stored ID never changes, handoff only to a subscribed node, local commits succeed only on a primary.",
